@@ -17,7 +17,7 @@ def key_fn(case, obs, verdict):
     return ":".join(parts[:2])
 
 
-RULE = ("non-trivial: own cases with >=2 instances and >6 events; sched / shse cases with >=2 instances; shs cases with >=2 trials; ammo cases with >=2 instances and >8 events; alias cases with >=2 shots and at least one definition "
+RULE = ("non-trivial: hshare cases with >=2 Acquires and a clock step; own cases with >=2 instances and >6 events; sched / shse cases with >=2 instances; shs cases with >=2 trials; ammo cases with >=2 instances and >8 events; alias cases with >=2 shots and at least one definition "
         "carrying metadata/headers; race cases with >=2 instances; distinct = distinct case lines")
 
 
@@ -44,7 +44,7 @@ def run(ctx):
     translate_shared(ctx)
     model_ok = ok_t and ctx.coq(["Extract/ExtractC11.vo"], what="model+extraction")
     if model_ok:
-        ctx.properties(extra_files=["Properties/C11_sched.v", "Gen/SharedSched_bridge.v"])
+        ctx.properties(extra_files=["Properties/C11_sched.v", "Properties/C11_share.v", "Gen/SharedSched_bridge.v"])
     m = ctx.ocaml_model("mC11", "C11_model", "C11") if model_ok else None
     replay_kind = None
     if ctx.replay:
